@@ -73,7 +73,7 @@ def settings_of(agent) -> Optional[Dict[str, Any]]:
 
     s = agent.config.agent_settings
     base = {"kind": "", "start": 0, "startVar": 0, "freq": 1, "var": 0, "maxExec": 0, "nodes": [], "action": "",
-            "app": "", "p": [], "nStages": 0, "repeatChain": False, "repeatStages": False}
+            "app": "", "p": [], "nStages": 0, "repeatChain": False, "repeatStages": False, "c2": "", "startNodes": []}
     if isinstance(agent, PeriodicAgent):
         base.update(kind="periodic", start=_clip(s.start_step), startVar=_clip(s.start_variance), freq=_clip(s.frequency),
                     var=_clip(s.variance), maxExec=_clip(s.max_executions), nodes=[str(n) for n in s.possible_start_nodes],
@@ -89,19 +89,21 @@ def settings_of(agent) -> Optional[Dict[str, Any]]:
         return base
     if isinstance(agent, AbstractTAP):
         nodes = [str(n) for n in (s.starting_nodes or [])] or [str(s.default_starting_node)]
+        start_nodes = list(nodes)
         kc = s.kill_chain
         c2 = getattr(getattr(kc, "COMMAND_AND_CONTROL", None), "c2_server_name", "")
         if c2:
             nodes.append(str(c2))  # the configured C2 server issues the payload commands
         n_stages = {"tap-001": 6, "tap-003": 5}.get(agent.config.type, 0)
         base.update(kind="tap", start=_clip(s.start_step), startVar=_clip(s.variance), freq=_clip(s.frequency), var=_clip(s.variance),
-                    nodes=nodes, nStages=n_stages, repeatChain=bool(s.repeat_kill_chain), repeatStages=bool(s.repeat_kill_chain_stages))
+                    nodes=nodes, nStages=n_stages, repeatChain=bool(s.repeat_kill_chain), repeatStages=bool(s.repeat_kill_chain_stages),
+                    c2=str(c2 or ""), startNodes=start_nodes)
         return base
     return None
 
 
 def _event(**kw) -> Dict[str, Any]:
-    e = {"ev": "", "t": 0, "action": "", "node": "", "app": "", "choice": -1, "consistent": False, "s0": 0, "s1": 0, "nxt": 0}
+    e = {"ev": "", "t": 0, "action": "", "node": "", "app": "", "choice": -1, "consistent": False, "s0": 0, "s1": 0, "nxt": 0, "c2act": False}
     e.update(kw)
     return e
 
@@ -172,7 +174,8 @@ class Episode:
                 if acted and h.response.status != "success":
                     self.stats["red_failed_responses"] += 1
                 tr["ev"].append(_event(ev="TapAct" if acted else "TapIdle", t=_clip(h.timestep), action=h.action, node=node, app=app,
-                                       s0=self._s0[name], s1=int(ag.current_kill_chain_stage), nxt=int(ag.next_kill_chain_stage)))
+                                       s0=self._s0[name], s1=int(ag.current_kill_chain_stage), nxt=int(ag.next_kill_chain_stage),
+                                       c2act=str(h.action).startswith("c2-server")))
         return raiser
 
     def traces(self) -> List[Dict[str, Any]]:
